@@ -70,6 +70,24 @@ def gen_postings(items):
     items.append(lambda: D('TERMINFO_BLOCK_LEN', const('src/termdict/fst_termdict/term_info_store.rs', 'BLOCK_LEN'), 'term_info_store.rs'))
     items.append(lambda: D('VINT_STOP_BIT', const('common/src/vint.rs', 'STOP_BIT'), 'common/src/vint.rs'))
 
+    items.append(lambda: D('EXPULL_FIRST_BLOCK_NUM', const('stacker/src/expull.rs', 'FIRST_BLOCK_NUM'), 'stacker/src/expull.rs'))
+    items.append(lambda: D('ARENA_NUM_BITS_PAGE_ADDR', const('stacker/src/memory_arena.rs', 'NUM_BITS_PAGE_ADDR'), 'stacker/src/memory_arena.rs'))
+
+    def expull_shape():
+        f = 'stacker/src/expull.rs'
+        body = _fn_body2(f, 'get_block_size')
+        m = re.search(r'block_num\.min\((\d+)u32\)', body)
+        if not m or '(1u32 << exp) as u16' not in body:
+            raise Fail(f'{f}: get_block_size outside the recognised shape (1 << min(block_num, MAX))')
+        ens = _fn_body2(f, 'ensure_capacity')
+        if 'arena.allocate_space(allocate as usize + mem::size_of::<Addr>())' not in ens or 'arena.write_at(eull.tail, new_block_addr)' not in ens:
+            raise Fail(f'{f}: ensure_capacity outside the recognised shape (block + Addr allocated, next pointer written at the old tail)')
+        rd = _fn_body2(f, 'read_to_end')
+        if 'for block_num in FIRST_BLOCK_NUM + 1..self.block_num' not in rd or 'arena.read(addr.offset(cap as u32))' not in rd:
+            raise Fail(f'{f}: read_to_end outside the recognised shape')
+        return D('EXPULL_MAX_EXP', int(m.group(1)), f + ': get_block_size')
+    items.append(expull_shape)
+
     def vint_radix():
         body = _fn_body2('common/src/vint.rs', 'serialize_into')
         m = re.search(r'remaining\s*%\s*(\d+)u64', body)
